@@ -17,11 +17,24 @@
       of datagrams of each other ([C04_spaced_data_losses_complete]) and under any number of lost
       ACKs no two of which are within one window ([C04_spaced_ack_losses_complete]): every window
       is then hit at most once, each loss costs one time-out, the retry counter starts afresh.
-    What is NOT proved: liveness under faults that fall closer together than that (up to the
-    retry budget: the property's general clause), mixed schedules, and duplicate-packets mode with
-    faults.  For those the safety theorem holds, the finite enumeration [C04_single_fault_small]
-    (independent of the round induction) stands, and the W-PAIR co-simulation suite decides seeded
-    multi-fault schedules against the real workers. *)
+    - THE GENERAL CLAUSE, for files of at most 65535 blocks (duplicate-packets mode off):
+      under EVERY fault schedule - drops, repetitions, reorderings in any number and any
+      combination, on both channels - the run ends, and it ends in one of exactly two ways: the
+      transfer has completed on both sides with exactly the file, or the sender has given up
+      ([C04_every_schedule_ends]); the sender gives up only by a failed receive attempt made
+      with five failed attempts already on its count ([C04_gives_up_only_at_the_limit]), and the
+      count restarts whenever the window advances ([C04_retry_counts_failures]).  Hence a
+      schedule in which fewer than six consecutive attempts fail completes.  Quantitatively:
+      from ANY state the system can be in after ANY faults, if nothing more is disturbed, both
+      sides are still at work and the sender can afford one more time-out, the transfer
+      completes ([C04_quiet_after_faults_completes]) - one time-out is all a recovery costs.
+      The invariant behind both is [C04_general_invariant].
+    What is NOT proved: the same for duplicate-packets mode with faults (proved without faults:
+    C16), and for files beyond 65535 blocks under arbitrary schedules (proved for no fault, single
+    faults and spaced losses: C15; the safety theorem has the same bound because a datagram held
+    back long enough can then be mistaken for a later block).  The finite enumeration
+    [C04_single_fault_small] (independent of the inductions) stands beside the theorems, and the
+    W-PAIR co-simulation suite runs seeded multi-fault schedules against the real workers. *)
 From Coq Require Import Lia.
 From Tftp Require Import Base.Prelude Model.Types Model.Consts Model.Codec Model.Window Model.Worker Model.Spec
   Model.Server Model.Net Proofs.CodecP Proofs.SpecP Proofs.WindowP Proofs.SendP Proofs.RecvP Proofs.NetP
@@ -190,6 +203,76 @@ Definition C04_single_fault_statement : Prop :=
 Theorem C04_single_fault : C04_single_fault_statement.
 Proof. exact single_fault_statement_holds. Qed.
 
+(** The general clause.  Every fault schedule ends, in completion or at the retry limit. *)
+Definition C04_every_schedule_statement : Prop :=
+  forall (blk ws : N) (F : bytes) (f1 f2 : list (N * fault)), 0 < blk -> 1 <= ws <= 65535 -> nblk blk F <= 65535 ->
+  exists fuel,
+    let sc := mk_scfg blk ws 1000000000 1 false [] in
+    let rc := mk_rcfg blk ws 1000000000 1 true [] in
+    let p := pair_run sc rc f1 f2 fuel (pair_init sc rc f1 F) in
+    (r_phase (p_r p) = RDone OutOk /\ written_bytes (w_file (r_w (p_r p))) = F /\ s_phase (p_s p) = SDone OutOk)
+    \/ s_phase (p_s p) = SDone OutTimeout.
+Theorem C04_every_schedule_ends : C04_every_schedule_statement.
+Proof. exact any_schedule_statement_holds. Qed.
+
+Theorem C04_every_schedule_ends_gen : forall sc rc F,
+  wf_params (s_blk sc) (s_ws sc) -> r_blk rc = s_blk sc -> r_ws rc = s_ws sc -> s_check sc = false ->
+  s_fails sc = [] -> r_fails rc = [] -> s_rep sc = 1 -> r_rep rc = 1 -> 0 < s_tmo sc ->
+  forall f_sr f_rs, nblk (s_blk sc) F <= 65535 ->
+  exists fuel,
+    let p := pair_run sc rc f_sr f_rs fuel (pair_init sc rc f_sr F) in
+    (r_phase (p_r p) = RDone OutOk /\ written_bytes (w_file (r_w (p_r p))) = F /\ s_phase (p_s p) = SDone OutOk)
+    \/ s_phase (p_s p) = SDone OutTimeout.
+Proof. exact cosim_terminates. Qed.
+
+(** The sender ends in [OutTimeout] only by a failed receive attempt at the limit. *)
+Theorem C04_gives_up_only_at_the_limit : forall sc st e st' out, s_phase st = SInWindow ->
+  send_step sc st e = (st', out) -> s_phase st' = SDone OutTimeout ->
+  s_retry st + 1 = max_retries /\ is_failed_attempt (receive max_request_packet_size e).
+Proof. intros sc. exact (give_up_only_at_limit sc). Qed.
+
+(** Whatever happened before: once nothing more is disturbed, one time-out is enough. *)
+Definition C04_quiet_after_faults_statement : Prop :=
+  forall (blk ws : N) (F : bytes) (f1 f2 : list (N * fault)) (fuel0 : nat),
+  0 < blk -> 1 <= ws <= 65535 -> nblk blk F <= 65535 ->
+  let sc := mk_scfg blk ws 1000000000 1 false [] in
+  let rc := mk_rcfg blk ws 1000000000 1 true [] in
+  let p := pair_run sc rc f1 f2 fuel0 (pair_init sc rc f1 F) in
+  clean_from f1 (ch_n (p_sr p)) -> clean_from f2 (ch_n (p_rs p)) ->
+  s_phase (p_s p) = SInWindow -> s_retry (p_s p) + 1 < max_retries -> r_phase (p_r p) = RRun ->
+  exists fuel,
+    let p' := pair_run sc rc f1 f2 fuel p in
+    r_phase (p_r p') = RDone OutOk /\ written_bytes (w_file (r_w (p_r p'))) = F /\ s_phase (p_s p') = SDone OutOk.
+Theorem C04_quiet_after_faults_completes : C04_quiet_after_faults_statement.
+Proof. exact quiet_after_faults_statement_holds. Qed.
+
+(** The invariant of the closed system under every schedule, while the sender is at work. *)
+Theorem C04_general_invariant : forall sc rc F,
+  wf_params (s_blk sc) (s_ws sc) -> r_blk rc = s_blk sc -> r_ws rc = s_ws sc -> s_check sc = false ->
+  s_fails sc = [] -> r_fails rc = [] -> s_rep sc = 1 -> r_rep rc = 1 -> 0 < s_tmo sc ->
+  forall f_sr f_rs fuel, nblk (s_blk sc) F <= 65535 ->
+  let p := pair_run sc rc f_sr f_rs fuel (pair_init sc rc f_sr F) in
+  s_phase (p_s p) = SInWindow ->
+  exists a r0 c j,
+    SS sc F (p_s p) a r0 /\ RG sc rc F (p_r p) a (wlen (p_s p)) c j /\
+    Forall (dat_ok sc F (a + wlen (p_s p))) (in_flight (p_sr p)) /\
+    Forall (ackG a (a + wlen (p_s p)) c) (in_flight (p_rs p)).
+Proof. exact cosim_general_invariant. Qed.
+
+(** The premises of [C04_quiet_after_faults_completes] are met by a heavily disturbed run: seven
+    faults on the DATA channel, three on the ACK channel, four time-outs on the sender's count. *)
+Example C04_ex_quiet_after_faults :
+  let sc := mk_scfg 4 3 1000000000 1 false [] in
+  let rc := mk_rcfg 4 3 1000000000 1 true [] in
+  let F := map N.of_nat (seq 1 30) in
+  let f1 := [(1, NfDrop); (2, NfHold); (4, NfDup); (5, NfDrop); (7, NfDrop); (8, NfDrop); (9, NfHold)] in
+  let f2 := [(0, NfDrop); (1, NfDup); (2, NfHold)] in
+  let p := pair_run sc rc f1 f2 15 (pair_init sc rc f1 F) in
+  clean_from f1 (ch_n (p_sr p)) /\ clean_from f2 (ch_n (p_rs p)) /\
+  s_phase (p_s p) = SInWindow /\ s_retry (p_s p) = 4 /\ r_phase (p_r p) = RRun /\ r_cnt (p_r p) = 3 /\
+  nblk 4 F = 8.
+Proof. exact quiet_after_faults_premises. Qed.
+
 Example C04_ex_lost_ack :
   single_fault_ok 1 (pattern_file 17) false 0 NfDrop = true /\ single_fault_ok 2 (pattern_file 17) true 1 NfHold = true.
 Proof. split; vm_compute; reflexivity. Qed.
@@ -203,6 +286,11 @@ Print Assumptions C04_one_repeated_ack_completes.
 Print Assumptions C04_one_reordered_data_completes.
 Print Assumptions C04_one_reordered_ack_completes.
 Print Assumptions C04_single_fault.
+Print Assumptions C04_every_schedule_ends.
+Print Assumptions C04_every_schedule_ends_gen.
+Print Assumptions C04_gives_up_only_at_the_limit.
+Print Assumptions C04_quiet_after_faults_completes.
+Print Assumptions C04_general_invariant.
 Print Assumptions C04_spaced_data_losses_complete.
 Print Assumptions C04_spaced_ack_losses_complete.
 Print Assumptions C04_download_completes.
